@@ -36,6 +36,10 @@ fn main() {
             let only = args.iter().position(|a| a == "--only").and_then(|i| args.get(i + 1)).map(|s| s.as_str());
             engine::run_property(&props, &args[1], tier, emit, only)
         }
+        Some("fuzz-seeds") if args.len() >= 2 => {
+            props::c17::write_seed_corpus(Path::new(&args[1]));
+            0
+        }
         Some("run-case") if args.len() >= 4 => engine::run_case_file(&props, &args[1], &args[2], Path::new(&args[3])),
         Some("replay") if args.len() >= 2 && replay_needs_isolation(&args[1]) => {
             // the pinned case kills the process: run it in a child and judge the exit status
